@@ -321,6 +321,15 @@ fn covers_exactly(lin: &v1::Linear, lo: f64, width: u64) -> Result<(), String> {
     Ok(())
 }
 
+/// the neighbouring double above (`up`) or below `x`
+fn step(x: f64, up: bool) -> f64 {
+    if x == 0.0 {
+        return if up { f64::from_bits(1) } else { -f64::from_bits(1) };
+    }
+    let b = x.to_bits();
+    f64::from_bits(if (x > 0.0) == up { b + 1 } else { b - 1 })
+}
+
 fn decode(t: &mut Tape, ctx: &mut Ctx) -> Case {
     let class = if t.p(80) { 1 + t.choice(10) as u8 } else { 0 };
     let others = t.byte();
@@ -357,6 +366,17 @@ fn decode(t: &mut Tape, ctx: &mut Ctx) -> Case {
         upper += frac(t);
         ctx.label("fractional-bound");
     }
+    // the doubles next to an integer: upper = largest double below k + 1 (floor = k), lower = smallest double above
+    // k - 1 (ceil = k); the integer range is unchanged
+    let ulp_mode = if t.p(40) { 1 + t.choice(3) } else { 0 };
+    if ulp_mode & 1 != 0 {
+        upper = step(upper.floor() + 1.0, false);
+        ctx.label("upper-one-ulp-below-integer");
+    }
+    if ulp_mode & 2 != 0 {
+        lower = step(lower.ceil() - 1.0, true);
+        ctx.label("lower-one-ulp-above-integer");
+    }
     match class {
         5 => lower = f64::NEG_INFINITY,
         6 => upper = f64::INFINITY,
@@ -372,10 +392,20 @@ fn decode(t: &mut Tape, ctx: &mut Ctx) -> Case {
             }
         }
         9 => {
-            // no integer inside
+            // no integer inside: well inside a unit interval, or hugging an integer from one side
             let k = lower.floor();
-            lower = k + 0.25;
-            upper = k + 0.75;
+            let (a, b) = *t.pick(&[(0.25, 0.75), (0.25, 0.75), (1e-7, 2e-7), (-2e-7, -1e-7), (5e-7, 0.5), (0.5, 1.0 - 5e-7)]);
+            lower = k + a;
+            upper = k + b;
+            if t.p(40) {
+                // a one-point range one ulp beside the integer
+                let x = step(k, t.coin());
+                lower = x;
+                upper = x;
+            }
+            if (lower - lower.round()).abs() < 1e-6 || (upper - upper.round()).abs() < 1e-6 {
+                ctx.label("empty-range-hugging-an-integer");
+            }
         }
         10 => {
             // inverted bound: contains no integer (nothing at all)
@@ -448,7 +478,7 @@ impl Property for C12 {
     }
     fn required_labels(&self) -> Vec<String> {
         let mut v: Vec<String> = CLASS_NAMES.iter().map(|c| format!("class={c}")).collect();
-        v.extend(["fractional-bound", "width>4096", "single-integer", "oracle=all-bit-patterns", "oracle=complete-sequence", "child-process", "second-encode", "target-has-recorded-value", "instance-records-parameters", "encode-substitute-encode"].iter().map(|s| s.to_string()));
+        v.extend(["fractional-bound", "width>4096", "single-integer", "oracle=all-bit-patterns", "oracle=complete-sequence", "child-process", "second-encode", "target-has-recorded-value", "instance-records-parameters", "encode-substitute-encode", "upper-one-ulp-below-integer", "lower-one-ulp-above-integer", "empty-range-hugging-an-integer"].iter().map(|s| s.to_string()));
         v
     }
     fn cases(&self, tier: Tier) -> usize {
